@@ -11,6 +11,7 @@ import (
 	"bytes"
 	"context"
 	"encoding/json"
+	"git.defalsify.org/vise.git/state"
 	"reflect"
 	"testing"
 
@@ -58,6 +59,9 @@ func genC17(t *rapid.T) C17Case {
 	o.Sloppy = chancePct(t, 10, "sloppy")
 	o.ResetEmpty = true
 	a := GenApp(t, o)
+	// (a first function that sets no flags: it also runs for the refused request, and what
+	// it changes then is its own doing, not the refused input's)
+	genFirst(t, a, 25, false)
 	c := C17Case{App: a, Inputs: toBS(GenHistory(t, a, HistOpts{MaxLen: 8, Junk: true}))}
 	c.Mode = c17Modes[uniformN(t, len(c17Modes), "mode")]
 	c.FlushOnErr = chancePct(t, 30, "flushonerr")
@@ -112,6 +116,16 @@ func snapEqual(a, b *app.Snapshot) string {
 		return "cache used size"
 	}
 	return ""
+}
+
+func maskInmatch(s *app.Snapshot) *app.Snapshot {
+	if s == nil || len(s.Flags) == 0 {
+		return s
+	}
+	c := *s
+	c.Flags = append([]byte{}, s.Flags...)
+	c.Flags[0] &^= 1 << state.FLAG_INMATCH
+	return &c
 }
 
 func checkC17(c C17Case) (o Outcome) {
@@ -199,7 +213,14 @@ func checkC17(c C17Case) (o Outcome) {
 				o.class("refused-request-does-lookups")
 			}
 			if prev != nil {
-				if d := snapEqual(prev, s.After); d != "" {
+				pa, sa := prev, s.After
+				if c.App.Cfg.First != nil {
+					// the engine's first function is run (a VM run of its own) when an engine
+					// starts serving, before the input is looked at; a run begins by clearing
+					// INMATCH, which no later run reads before clearing it again
+					pa, sa = maskInmatch(pa), maskInmatch(sa)
+				}
+				if d := snapEqual(pa, sa); d != "" {
 					o.Viol = viol("refused-changes-session", "request %d: refused input %s changed the session's %s:\n before %+v\n after  %+v", i, describeVal(r.in), d, prev, s.After)
 					return
 				}
